@@ -300,7 +300,10 @@ func IsEmpty(rv reflect.Value) (reflect.Value, bool) {
 			rv = rv.Elem()
 			continue
 		case reflect.String, reflect.Slice, reflect.Array, reflect.Map:
-			return rv, rv.Len() == 0
+			if rv.Len() == 0 {
+				return rv, true
+			}
+			// not zero-length: IsZero() is still consulted (below)
 		}
 		break
 	}
